@@ -61,6 +61,20 @@ class Module:
         self.is_pkg = is_pkg
         self.tree = ast.parse(source, filename=relpath)
         self.inlined: List[str] = []
+        # functions of the pinned tree under another name / in another place (same shape with identifiers blanked), noted before
+        # any normalisation changes their bodies: they are not "new helpers"
+        renamed_known: Set[str] = set()
+        if foreign_attrs is not None:
+            from .inline import fingerprint
+            from .known_names import SHAPES as _SHAPES
+
+            for st in self.tree.body:
+                if isinstance(st, ast.FunctionDef) and len(st.body) >= 2 and fingerprint(st) in _SHAPES:
+                    renamed_known.add(st.name)
+                elif isinstance(st, ast.ClassDef):
+                    for m_ in st.body:
+                        if isinstance(m_, ast.FunctionDef) and len(m_.body) >= 2 and fingerprint(m_) in _SHAPES:
+                            renamed_known.add(f"{st.name}.{m_.name}")
         enums, path_consts = pkg_consts if pkg_consts is not None else ({}, {})
         imported: Dict[str, ast.AST] = {}
         for st in self.tree.body:
@@ -96,7 +110,7 @@ class Module:
 
             if "contextmanager" in source:
                 self.inlined += expand_context_managers(self.tree, set(KNOWN.get(name, [])))
-            self.inlined += normalise_new(self.tree, set(KNOWN.get(name, [])), foreign_attrs, set(SHAPES))
+            self.inlined += normalise_new(self.tree, set(KNOWN.get(name, [])) | renamed_known, foreign_attrs, set(SHAPES))
         self.imports: Dict[str, str] = {}
         self.funcs: Dict[str, "Func"] = {}
         self.classes: Dict[str, "Class"] = {}
